@@ -25,10 +25,11 @@ type fieldSpec struct {
 }
 
 type typeSpec struct {
-	name   string
-	fields []fieldSpec
-	idLast bool // struct-backed form declares the ID field after the others
-	noFrom bool // soft form leaves FromType of its relationships empty
+	name      string
+	fields    []fieldSpec
+	idLast    bool // struct-backed form declares the ID field after the others
+	noFrom    bool // soft form leaves FromType of its relationships empty
+	fromOther bool // soft form: relationships still carry the name of the type this one was copied from
 }
 
 func (t typeSpec) fieldNames() []string {
@@ -56,6 +57,9 @@ func (t typeSpec) softType() jsonapi.Type {
 			from := t.name
 			if t.noFrom {
 				from = ""
+			}
+			if t.fromOther {
+				from = "articles"
 			}
 			if f.target == "" {
 				// a relationship without a target type: Type.AddRel refuses it, a type
